@@ -108,6 +108,7 @@ const ATTR_NAMES: &[&str] = &[
 const DIR_NAMES: &[&str] = &[
     "v-show", "v-foo", "v-foo-bar", "vFoo", "vFooBar", "v-html", "v-text", "v-model",
     "v-models", "v-slots", "vModel", "vShow", "vHtml", "vSlots", "v-x", "vX", "v-visible", "v-vv",
+    "v-étiquette", "v-Étiquette", "v-日本",
 ];
 const MODS: &[&str] = &["_a", "_b", "_trim", "_lazy", "_a_b", "_", "__a", "_1"];
 const DIR_ARGS: &[&str] = &[":arg", ":a-b", ":modelValue", ":x_y", ":arg_m", ":arg_m1_m2", ":_m"];
